@@ -1,6 +1,7 @@
 import WhVerif.Util.Proto
 import WhVerif.Model.C13
 import WhVerif.Model.C13Header
+import WhVerif.Spec.C13Edit
 namespace WhVerif.Driver.C13
 open Lean WhVerif.Proto WhVerif.C13
 
@@ -61,6 +62,11 @@ def handleHeader (op : String) (j : Json) : Option Json :=
     | some h => some (Json.mkObj [("cur", ofList (fun (l : HLine) => Json.str l.text) (unphaseHeaderCur h)),
                                   ("fix", ofList (fun (l : HLine) => Json.str l.text) (unphaseHeaderFix h))])
     | none => some badInput
+  else if op == "c13.isedit" then
+    -- `{a: records, b: records}` → `{edit: editB a b, same: unphase a = unphase b}`
+    match (getList? j "a").bind (·.mapM parseRecord), (getList? j "b").bind (·.mapM parseRecord) with
+    | some a, some b => some (Json.mkObj [("edit", Json.bool (editB a b)), ("same", Json.bool (decide (unphase b = unphase a)))])
+    | _, _ => some badInput
   else none
 
 /-- `c13.unphase {records}` → `{spec: [...], fix: {ok|err}, cur: {ok|err}}` -/
